@@ -170,6 +170,16 @@ CLAIMED = {
             'reference solvers. Harness bound: a z3 call that does not answer within 1.5 s counts as not accepted. Goals outside the '
             'atom pools (sets, of_nat of variables, transcendental functions other than sin/sqrt) are not explored.',
             'DESIGN.md §3 C06'),
+    'C04': ('exploration',
+            'bounded exhaustive enumeration of macro invocations (library corpus, complete 1-deviation neighbourhoods, generated inputs, two-invocation sessions) on the real macros and the real checker',
+            'For every macro step of the replayed library theories of the tier, every 1-deviation of it (premise dropped / duplicated / '
+            'swapped / given a hypothesis, term argument replaced by a subterm or a premise), every generated input of the logic, nat '
+            'and int macros, and every ordered pair of invocations of the memoising auto macro: whenever eval succeeds and the expansion '
+            'is produced, the checker accepts the expansion at the default level, its conclusion is the one eval reports, it has no '
+            'hypothesis eval does not report, and it rests on no unproved statement other than the premises.',
+            'Trusted: the proof checker (C01/C02), kernel term equality. Level-0 macros are never expanded by the default checker and '
+            'are outside the property (C05/C06 cover them). Macros whose lookup itself fails (int_ineq* have no .limit attribute) are counted, not judged.',
+            'DESIGN.md §3 C04'),
 }
 
 PENDING_REASON = 'check not built yet in this round (planned, see DESIGN.md §3/§7); not claimed until its machinery exists'
